@@ -150,6 +150,7 @@ def post_state(eng, contract, src, outcome):
                 if when is None:
                     continue  # may raise under conditions the contract does not pin down
                 eng.prove(z3.Not(eng.truth(eng.eval_clause(when))), "raises_iff", "no %s => not(%s)" % (exc.__name__, when), src.first_line, assume_after=False)
+            frame_obligations(eng, contract, src)
             for i, cl in enumerate(contract.ensures):
                 # earlier postconditions serve as lemmas for later ones (each is proved before it is assumed)
                 eng.prove(eng.eval_clause(cl), "ensures", "ensures[%d]" % i, src.first_line, assume_after=True)
@@ -190,3 +191,64 @@ def aggregate(results):
             if o.get("text") and a["text"] is None:
                 a["text"] = o["text"]
     return agg
+
+
+def frame_obligations(eng, contract, src):
+    """Everything on the heap that the contract does not list under modifies / modifies_maps / modifies_lists is unchanged:
+    callers rely on this when they use the contract instead of the body."""
+    mods = set(m for m in contract.modifies if "." not in m) | set(contract.ghost_fields)
+    obj_cells = {}   # field -> [object terms] for "obj.field" entries (evaluated in the entry state)
+    if any("." in m for m in contract.modifies):
+        saved_heap, saved_lists = eng.heap, eng.lists
+        eng.heap = dict(eng.heap0)
+        eng.lists = eng.snapshot_lists()
+        try:
+            for m in contract.modifies:
+                if "." in m:
+                    oexpr, fname = m.rsplit(".", 1)
+                    obj_cells.setdefault(fname, []).append(eng.force(eng.eval_clause(oexpr)).t)
+        finally:
+            eng.heap, eng.lists = saved_heap, saved_lists
+    # declared map cells (evaluated in the entry state)
+    cells = []
+    if contract.modifies_maps:
+        saved_heap, saved_lists = eng.heap, eng.lists
+        eng.heap = dict(eng.heap0)
+        eng.lists = eng.snapshot_lists()
+        try:
+            for mexpr, kexpr in contract.modifies_maps:
+                mobj = eng.force(eng.eval_clause(mexpr))
+                cells.append((mobj, eng.map_key(eng.eval_clause(kexpr))))
+        finally:
+            eng.heap, eng.lists = saved_heap, saved_lists
+    for key, arr in list(eng.heap.items()):
+        init = eng.heap0.get(key)
+        if init is None:
+            init = eng.heap_init.get(key)
+        if init is None or arr.eq(init):
+            continue
+        field = key.split("#")[0]
+        if field in mods:
+            continue
+        r = z3.Int(eng.fresh_name("fr"))
+        if key.startswith("map$"):
+            k = z3.Int(eng.fresh_name("fk"))
+            mcls_cells = [z3.And(r == m.t, k == kk) for (m, kk) in cells if key.startswith("map$%s#" % m.cls.tag)]
+            # maps that are ghost fields' targets are identified by reference: cells of maps stored in ghost fields are free
+            ghost_maps = []
+            for gf in contract.ghost_fields:
+                ft = eng.registry.field_types.get(gf)
+                if isinstance(ft, TMap) and key.startswith("map$%s#" % ft.cls.tag):
+                    garr = eng.heap0.get(gf + "#e")
+                    if garr is None:
+                        garr = eng.heap_init.get(gf + "#e")
+                    if garr is not None:
+                        o = z3.Int(eng.fresh_name("fo"))
+                        ghost_maps.append(z3.Exists([o], z3.Select(garr, o) == r))
+            same = z3.Select(z3.Select(arr, r), k) == z3.Select(z3.Select(init, r), k)
+            goal = z3.ForAll([r, k], z3.Or(mcls_cells + ghost_maps + [same]))
+        elif field in obj_cells:
+            goal = z3.ForAll([r], z3.Or([r == o for o in obj_cells[field]] + [z3.Select(arr, r) == z3.Select(init, r)]))
+        else:
+            goal = z3.ForAll([r], z3.Select(arr, r) == z3.Select(init, r))
+        eng.prove(goal, "frame", "%s unchanged (not in modifies)" % key, src.first_line, assume_after=False)
